@@ -532,22 +532,53 @@ def glue_rules(ctx):
     repo = ctx.repo
     R.rule("C19-D2 build glue", 3, "render_template passes the configuration unmodified; version items are merged before rendering")
     rt = repo.func("ncs.build", "render_template")
-    src = ast.unparse(rt.node)
-    R.check("C19-D2 build glue", "template.render(data)" in src and "Template(template_file.read())" in src, "render_template", mod=rt.module,
-            node=rt.node, function=ctx.fq(rt), expected="Template(<whole file>).render(data)", found="shape not recognised")
+    from sa.absint import Evaluator as _Ev
+    from sa.terms import App as _App, Const as _Const, Sym as _Sym
+    ro = [o for o in _Ev(repo, inline_depth=0).outcomes(rt) if o.kind == "return"]
+    ok = False
+    if len(ro) == 1:
+        v = ro[0].value
+        ok = isinstance(v, _App) and v.op == "meth:render" and len(v.args) == 2 and v.args[1] == _Sym("param:data") and isinstance(v.args[0], _App) \
+            and v.args[0].op == "call:jinja2.Template" and v.args[0].args[-1] == _App("filetext", (_Sym("param:template_location"),))
+    R.check("C19-D2 build glue", ok, "render_template", mod=rt.module,
+            node=rt.node, function=ctx.fq(rt), expected="Template(<whole file>).render(data)", found=repr(ro[0].value)[:200] if ro else "shape not recognised")
     m = repo.mod("ncs.build")
-    main_src = ""
+    main_block = None
     for s in m.tree.body:
-        if isinstance(s, ast.If) and "__name__" in ast.unparse(s.test):
-            main_src = ast.unparse(s)
-    i1 = main_src.find("configuration.update(read_version_file(arguments.version_file))")
-    i2 = main_src.find("render_template(arguments.template_suit, configuration)")
-    i3 = main_src.find("configuration['artifacts_folder'] = arguments.artifacts_folder")
-    R.check("C19-D2 build glue", 0 <= i1 < i2 and 0 <= i3 < i2, "version values and artifacts folder are in the configuration before rendering",
+        if isinstance(s, ast.If) and isinstance(s.test, ast.Compare) and isinstance(s.test.left, ast.Name) and s.test.left.id == "__name__":
+            main_block = s
+    if main_block is None:
+        raise AnalysisError("ncs/build.py: main block vanished")
+
+    def pos(n):
+        return (n.lineno, n.col_offset)
+    renders = [n for n in ast.walk(main_block) if isinstance(n, ast.Call) and isinstance(n.func, ast.Name) and n.func.id == "render_template"
+               and len(n.args) == 2 and isinstance(n.args[1], ast.Name)]
+    order_ok = bool(renders)
+    found = ""
+    for rcall in renders:
+        cfgname = rcall.args[1].id
+        updates = [n for n in ast.walk(main_block) if isinstance(n, ast.Call) and isinstance(n.func, ast.Attribute) and n.func.attr == "update"
+                   and isinstance(n.func.value, ast.Name) and n.func.value.id == cfgname and n.args and isinstance(n.args[0], ast.Call)
+                   and isinstance(n.args[0].func, ast.Name) and n.args[0].func.id == "read_version_file"]
+        folder = [n for n in ast.walk(main_block) if isinstance(n, ast.Assign) and any(
+            isinstance(t, ast.Subscript) and isinstance(t.value, ast.Name) and t.value.id == cfgname and isinstance(t.slice, ast.Constant)
+            and t.slice.value == "artifacts_folder" for t in n.targets)]
+        if not updates or not folder or not all(pos(u) < pos(rcall) for u in updates) or not all(pos(x) < pos(rcall) for x in folder):
+            order_ok = False
+            found = f"render at line {rcall.lineno}: {len(updates)} version updates, {len(folder)} artifacts_folder stores before it"
+    R.check("C19-D2 build glue", order_ok, "version values and artifacts folder are in the configuration before rendering",
             file="ncs/build.py", line=0, function="ncs.build:__main__", construct="main block order", expected="update(version) … artifacts_folder … render",
-            found=f"positions {i1}, {i3}, {i2}")
+            found=found or "render_template call not recognised")
     rc = repo.func("ncs.build", "read_configurations")
-    rsrc = ast.unparse(rc.node)
-    R.check("C19-D2 build glue", "'name': name" in rsrc and "'config': BuildConfiguration(kconfig)" in rsrc and "data[image_name] =" in rsrc,
+    entry_ok = False
+    for n in ast.walk(rc.node):
+        if isinstance(n, ast.Assign) and len(n.targets) == 1 and isinstance(n.targets[0], ast.Subscript) and isinstance(n.value, ast.Dict):
+            keys = {k.value: v for k, v in zip(n.value.keys, n.value.values) if isinstance(k, ast.Constant)}
+            if {"name", "config"} <= set(keys) and isinstance(keys["config"], ast.Call):
+                r_ = repo.resolve_expr(rc.module, keys["config"].func)
+                if r_ and r_[0] == "class" and r_[1].name == "BuildConfiguration":
+                    entry_ok = True
+    R.check("C19-D2 build glue", entry_ok,
             "each image is offered to the template under its name with 'name' and 'config'", mod=rc.module, node=rc.node, function=ctx.fq(rc),
             expected="data[image_name] = {'name': name, 'config': BuildConfiguration(kconfig)}", found="shape not recognised")
